@@ -1,0 +1,119 @@
+//go:build verif
+
+package ecs
+
+// Hooks for /verif's translator validation: they expose the unexported pool types to an
+// external harness, unchanged. Compiled only with -tags verif.
+
+// VEntityPool wraps entityPool.
+type VEntityPool struct{ p entityPool }
+
+// NewVEntityPool calls newEntityPool.
+func NewVEntityPool(inc uint32) *VEntityPool { return &VEntityPool{newEntityPool(inc)} }
+
+// VEntity builds a handle.
+func VEntity(id, gen uint32) Entity { return Entity{eid(id), gen} }
+
+// Get calls entityPool.Get.
+func (v *VEntityPool) Get() Entity { return v.p.Get() }
+
+// Recycle calls entityPool.Recycle.
+func (v *VEntityPool) Recycle(e Entity) { v.p.Recycle(e) }
+
+// Alive calls entityPool.Alive.
+func (v *VEntityPool) Alive(e Entity) bool { return v.p.Alive(e) }
+
+// Reset calls entityPool.Reset.
+func (v *VEntityPool) Reset() { v.p.Reset() }
+
+// State returns the fields.
+func (v *VEntityPool) State() (ids, gens []uint32, next, avail uint32, capacity int) {
+	for _, e := range v.p.entities {
+		ids = append(ids, uint32(e.id))
+		gens = append(gens, e.gen)
+	}
+	return ids, gens, uint32(v.p.next), v.p.available, cap(v.p.entities)
+}
+
+// VLockMask wraps lockMask.
+type VLockMask struct{ m lockMask }
+
+// Lock calls lockMask.Lock.
+func (v *VLockMask) Lock() uint8 { return v.m.Lock() }
+
+// Unlock calls lockMask.Unlock.
+func (v *VLockMask) Unlock(b uint8) { v.m.Unlock(b) }
+
+// IsLocked calls lockMask.IsLocked.
+func (v *VLockMask) IsLocked() bool { return v.m.IsLocked() }
+
+// Reset calls lockMask.Reset.
+func (v *VLockMask) Reset() { v.m.Reset() }
+
+// State returns the fields; the mask as the list of set bits.
+func (v *VLockMask) State() (set []int, bits []uint8, length uint16, next uint8, avail uint16) {
+	for i := 0; i < MaskTotalBits; i++ {
+		if v.m.locks.Get(id(uint8(i))) {
+			set = append(set, i)
+		}
+	}
+	return set, append([]uint8{}, v.m.bitPool.bits[:]...), v.m.bitPool.length, v.m.bitPool.next, v.m.bitPool.available
+}
+
+// VBitSet wraps bitSet.
+type VBitSet struct{ b bitSet }
+
+// Get calls bitSet.Get.
+func (v *VBitSet) Get(i uint32) bool { return v.b.Get(eid(i)) }
+
+// Set calls bitSet.Set.
+func (v *VBitSet) Set(i uint32, x bool) { v.b.Set(eid(i), x) }
+
+// Reset calls bitSet.Reset.
+func (v *VBitSet) Reset() { v.b.Reset() }
+
+// ExtendTo calls bitSet.ExtendTo.
+func (v *VBitSet) ExtendTo(n int) { v.b.ExtendTo(n) }
+
+// State returns the words.
+func (v *VBitSet) State() []uint64 { return append([]uint64{}, v.b.data...) }
+
+// VPaged wraps pagedSlice[uint64].
+type VPaged struct{ p pagedSlice[uint64] }
+
+// Add calls pagedSlice.Add.
+func (v *VPaged) Add(x uint64) { v.p.Add(x) }
+
+// Get calls pagedSlice.Get.
+func (v *VPaged) Get(i int32) uint64 { return *v.p.Get(i) }
+
+// Set calls pagedSlice.Set.
+func (v *VPaged) Set(i int32, x uint64) { v.p.Set(i, x) }
+
+// Len calls pagedSlice.Len.
+func (v *VPaged) Len() int32 { return v.p.Len() }
+
+// State returns the pages and counters.
+func (v *VPaged) State() (pages [][]uint64, length, lenLast int32) {
+	return v.p.pages, v.p.len, v.p.lenLast
+}
+
+// VIntPool wraps intPool[uint32].
+type VIntPool struct{ p intPool[uint32] }
+
+// NewVIntPool calls newIntPool.
+func NewVIntPool(inc uint32) *VIntPool { return &VIntPool{newIntPool[uint32](inc)} }
+
+// Get calls intPool.Get.
+func (v *VIntPool) Get() uint32 { return v.p.Get() }
+
+// Recycle calls intPool.Recycle.
+func (v *VIntPool) Recycle(x uint32) { v.p.Recycle(x) }
+
+// Reset calls intPool.Reset.
+func (v *VIntPool) Reset() { v.p.Reset() }
+
+// State returns the fields.
+func (v *VIntPool) State() (pool []uint32, next, avail uint32, capacity int) {
+	return append([]uint32{}, v.p.pool...), v.p.next, v.p.available, cap(v.p.pool)
+}
